@@ -21,6 +21,26 @@ static std::string obs1(const Dune::ReservedVector<int, n>& v, std::string& flag
   return s;
 }
 
+// the non-const access paths (and the c-prefixed iterator getters) show the same elements as the const ones
+template<int n>
+static void mutable_checks(Dune::ReservedVector<int, n>& v, std::string& flags)
+{
+  const Dune::ReservedVector<int, n>& c = v;
+  std::vector<int> a(c.begin(), c.end());
+  if (std::vector<int>(v.begin(), v.end()) != a || std::vector<int>(v.cbegin(), v.cend()) != a || std::vector<int>(c.cbegin(), c.cend()) != a) flags += "!mbegin";
+  std::vector<int> r(a.rbegin(), a.rend());
+  if (std::vector<int>(v.rbegin(), v.rend()) != r || std::vector<int>(v.crbegin(), v.crend()) != r || std::vector<int>(c.crbegin(), c.crend()) != r) flags += "!mrbegin";
+  for (std::size_t i = 0; i < a.size(); ++i) if (v[i] != a[i] || v.at(i) != a[i] || v.data()[i] != a[i]) { flags += "!midx"; break; }
+  if (!a.empty() && (v.front() != a.front() || v.back() != a.back() || c.front() != a.front() || c.back() != a.back())) flags += "!mfb";
+  if (v.end() - v.begin() != (std::ptrdiff_t) a.size() || c.end() - c.begin() != (std::ptrdiff_t) a.size()) flags += "!mdist";
+  bool t1 = false, t2 = false;
+  try { (void) v.at(a.size()); } catch (std::out_of_range&) { t1 = true; }
+  try { (void) c.at(a.size()); } catch (std::out_of_range&) { t2 = true; }
+  if (!t1 || !t2) flags += "!at";
+  std::ostringstream os; os << c; std::string exp; for (int x : a) exp += std::to_string(x) + "  ";
+  if (os.str() != exp) flags += "!print";
+}
+
 template<int n>
 static void run(const std::vector<std::string>& ops)
 {
@@ -31,7 +51,11 @@ static void run(const std::vector<std::string>& ops)
     std::string flags, at = "_";
     int i = t.size() > 1 ? (int) c11::num(t[1]) : 0;
     RV& v = V[i];
-    if (t[0] == "pb") v.push_back((int) c11::num(t[2]));
+    if (t[0] == "pb") { const int x = (int) c11::num(t[2]); v.push_back(x); }          // push_back(const T&)
+    else if (t[0] == "pbm") v.push_back((int) c11::num(t[2]));                          // push_back(T&&)
+    else if (t[0] == "eb") { int& r = v.emplace_back((int) c11::num(t[2])); if (&r != &v.back()) flags += "!eb"; }
+    else if (t[0] == "mkd") v = RV((std::size_t) c11::num(t[2]));                       // ReservedVector(count): value-initialised storage
+    else if (t[0] == "il") { long k = c11::num(t[2]); v = k == 0 ? RV{} : k == 1 ? RV{1} : k == 2 ? RV{1, 2} : RV{1, 2, 3}; }
     else if (t[0] == "pop") v.pop_back();
     else if (t[0] == "rsz") v.resize((std::size_t) c11::num(t[2]));
     else if (t[0] == "cl") v.clear();
@@ -48,7 +72,9 @@ static void run(const std::vector<std::string>& ops)
       try { at = std::to_string(v.at((std::size_t) c11::num(t[2]))); } catch (std::out_of_range&) { at = "OOR"; }
     }
     else { c11::step_done("UNKNOWN-OP"); continue; }
+    mutable_checks<n>(V[0], flags); mutable_checks<n>(V[1], flags);
     const RV& A = V[0]; const RV& B = V[1];
+    if (A == B && (hash_value(A) != hash_value(B) || std::hash<RV>()(A) != std::hash<RV>()(B))) flags += "!hash";
     bool e = (A == B), l1 = (A < B), l2 = (B < A);
     if ((A != B) == e || (A > B) != l2 || (A <= B) != !l2 || (A >= B) != !l1) flags += "!cmp";
     std::string s = obs1<n>(A, flags) + " " + obs1<n>(B, flags) + " " + (e ? "1" : "0") + (l1 ? "1" : "0") + (l2 ? "1" : "0") + " " + at;
